@@ -158,7 +158,11 @@ int ops_merger(char **args, int na)
 		while (i < na && strchr(args[i], '=')) { i++; nkv++; }
 		const char *kind = kv(kvs, nkv, "kind"); if (!kind) kind = "t";
 		int ne = (na - i) / 2; int s = a->nsrc;
-		if (!strcmp(kind, "u")) {
+		if (!strcmp(kind, "n")) {
+			/* another merger object as a source (its own sources were added before) */
+			struct obj *sub = getobj(kv(kvs, nkv, "sub") ? kv(kvs, nkv, "sub") : "-1", K_MERGER); if (!sub) return -1;
+			mtbl_merger_add_source(o->p, mtbl_merger_source(sub->p));
+		} else if (!strcmp(kind, "u")) {
 			struct usrc *us = calloc(1, sizeof *us); us->n = ne; us->es = calloc(ne + 1, sizeof *us->es);
 			for (int j = 0; j < ne; j++) {
 				if (unhex(args[i + 2 * j], &us->es[j].k, &us->es[j].kl) || unhex(args[i + 2 * j + 1], &us->es[j].v, &us->es[j].vl)) return -1;
